@@ -380,3 +380,7 @@ M('c09_free_energy_memo_ignores_temperature', 'C09', (V, "        prob = self.pr
 # (a memo of Transitions.jumps() that ignores minimal_residence is not observable through C04/C05: with inner
 # fraction 1 the residence filter never rejects, and with a fraction < 1 the statement only demands a subset)
 M('c13_drift_memo_ignores_species', 'C13', (TR, "        return np.mean(displacements, axis=1)[:, None, :]\n", "        self.__dict__.setdefault('_drift_memo', np.mean(displacements, axis=1)[:, None, :])\n        return self.__dict__['_drift_memo']\n"))
+# ---- surfaces added late: n best paths, alternate voxel-mapping entry points -----------------------
+M('c10_n_paths_energy_of_first', 'C10', (PA, "        path_energy = [F_graph.nodes[node]['energy'] for node in path]\n        list_of_paths.append(Pathway(sites=path, energy=path_energy))", "        path_energy = [F_graph.nodes[node]['energy'] for node in path]\n        list_of_paths.append(Pathway(sites=path, energy=list(best_path.energy)[: len(path)] + path_energy[len(best_path.energy):]))"))
+M('c08_site_to_voxel_cartesian', 'C08', (V, "        return self.frac_coords_to_voxel(site.frac_coords)\n", "        return self.frac_coords_to_voxel(site.coords / np.array(self.lattice.abc))\n"))
+M('c08_cart_coords_row_convention', 'C08', (V, "        return self.lattice.get_cartesian_coords(frac_coords)\n", "        return np.dot(self.lattice.matrix, np.asarray(frac_coords).T).T\n"))
